@@ -304,6 +304,42 @@ fn emit_index<K: Kmer>(out: &mut Out, keys: &[K], obs: &IndexObs) {
     );
 }
 
+/// the interleaving model run under a random schedule (random order of the threads' atomic steps, random
+/// stale reads) must end in the level-0 bit vector and redo set of the real structure
+fn emit_sched<K: Kmer>(out: &mut Out, rng: &mut Rng, keys: &[K], obs: &IndexObs) {
+    if obs.sizes.is_empty() {
+        return;
+    }
+    let size = obs.sizes[0];
+    let slots: Vec<u64> = keys.iter().map(|key| hashmod(0, key, size)).collect();
+    let nk = keys.len();
+    let shuffle = |v: &mut Vec<usize>, rng: &mut Rng| {
+        for i in (1..v.len()).rev() {
+            let j = rng.below(i + 1);
+            v.swap(i, j);
+        }
+    };
+    // three steps per thread in phase 1, two in phase 2, in a random global order; with some probability the
+    // threads run in bursts (sorted chunks) instead, which is closer to what rayon does
+    let mut s1: Vec<usize> = (0..nk).flat_map(|i| [i, i, i]).collect();
+    let mut s2: Vec<usize> = (0..nk).flat_map(|i| [i, i]).collect();
+    if rng.chance(2, 3) {
+        shuffle(&mut s1, rng);
+        shuffle(&mut s2, rng);
+    } else {
+        s1.reverse();
+    }
+    let stale_den = *rng.pick(&[1usize, 2, 4, 1000]);
+    let ev: Vec<V> = s1.iter().map(|i| l(vec![nu(*i), b(rng.chance(1, stale_den))])).collect();
+    let set0: HashSet<u64> = obs.setbits[0].iter().cloned().collect();
+    let redo: Vec<V> = (0..nk).filter(|i| !set0.contains(&slots[*i])).map(nu).collect();
+    out.case(
+        "bb.sched",
+        l(vec![n(size), l(slots.iter().map(|x| n(*x)).collect()), l(ev), l(s2.iter().map(|x| nu(*x)).collect())]),
+        l(vec![l(obs.setbits[0].iter().map(|x| n(*x)).collect()), l(redo), n(1u8)]),
+    );
+}
+
 pub struct Opts {
     pub reps: usize,
     pub nabsent: usize,
@@ -403,6 +439,9 @@ fn run_graph<K: Kmer + Send + Sync + serde::Serialize>(
         let jp: serde_json::Value = serde_json::from_str(&serde_json::to_string(&g).expect("json")).expect("json parse");
         if let Some(obs) = index_obs(&jp, "left_order") {
             emit_index(out, &fk, &obs);
+            if nn <= 400 {
+                emit_sched(out, rng, &fk, &obs);
+            }
         }
         if let Some(obs) = index_obs(&jp, "right_order") {
             emit_index(out, &lk, &obs);
@@ -444,7 +483,7 @@ pub fn c19(out: &mut Out, rng: &mut Rng, tier: &Tier) {
         POOLS.iter().map(|p| rayon::ThreadPoolBuilder::new().num_threads(*p).build().expect("pool")).collect();
     // the job list is a function of the seed only; shards take jobs by index
     let mut jobs: Vec<(usize, usize, usize, usize)> = vec![]; // (ktype, kind, size, reps)
-    let small = if tier.thorough { 1500 } else { 200 };
+    let small = if tier.thorough { 3000 } else { 400 };
     for i in 0..small {
         let kt = i % 6;
         let kind = rng.below(4);
@@ -452,7 +491,7 @@ pub fn c19(out: &mut Out, rng: &mut Rng, tier: &Tier) {
             0 | 1 => *rng.pick(&[1usize, 2, 3, 5, 8, 12, 20, 40]),
             _ => *rng.pick(&[0usize, 1, 2, 5, 5, 7, 16, 40, 100, 150, 151, 300, 600]),
         };
-        jobs.push((kt, kind, size, 2));
+        jobs.push((kt, kind, size, 3));
     }
     let mids: &[usize] = if tier.thorough { &[1000, 3000, 5000, 10000, 20000, 20000, 50000, 50000] } else { &[1000, 3000, 5000, 20000] };
     for (i, sz) in mids.iter().enumerate() {
